@@ -5,7 +5,8 @@ addbasis) against an independent brute-force space group (vmon.ref.geom.full_gro
 projectors (R6), over random crystals of every lattice system (2-D/3-D, random orientation); plus the
 exhaustive family: every subgroup of O_h, D_6h (3-D) and D_4, D_6 (2-D) fed as GroupOp lists to
 reduce(CombineVectorBasis / CombineTensorBasis, ...) exactly as Crystal.VectorBasis / SymmTensorBasis do,
-in several operation orders and lattice orientations.
+in several operation orders and lattice orientations; and the same subgroups as ACTUAL site symmetries:
+crystals with one species at the origin and a second species on the H-orbit of a general point.
 """
 from functools import reduce
 import numpy as np
@@ -17,9 +18,10 @@ ID = 'C20'
 RULE = ('(a) random crystals: Bravais type from all 3-D (11) and 2-D (5) systems, 1-3 orbits of special/general points, 1-3 species, '
         'half of them in a random rigid orientation; every site is examined; Wyckoffpos/addbasis for special (site, '
         'high-symmetry fractions, diagonal) and general u; (b) exhaustive: all 98 subgroups of O_h, 54 of D_6h, 10 of D_4, 16 of '
-        'D_6 (closure from <=3 generators) x standard + random orientations x 4 random operation orders. Non-trivial = crystal '
-        'with >1 atom or >1 operation / subgroup of order >1; distinct = (kind, atoms per species, |G|, rotated) or '
-        '(holohedry, subgroup, orientation)')
+        'D_6 (closure from <=3 generators) x standard + random orientations x 4 random operation orders; (c) decorated: for every '
+        'such subgroup H of order <=12 (quick) / <=24 (thorough) a crystal whose origin site has point group H (all monitors of '
+        '(a) run on it). Non-trivial = crystal with >1 atom or >1 operation / subgroup of order >1; distinct = (kind, rotated, '
+        'atoms per species, |G|) or (holohedry, subgroup, orientation)')
 ASSUMPTIONS = ['positions compared modulo the lattice with tolerance 1e-6 (the class threshold is 1e-8); generated test points whose '
                'images lie between 1e-9 and 1e-3 of each other are skipped as threshold-degenerate',
                'projectors, orthonormality and equivariance compared to 1e-9 (algebraic identities on unit-scale objects)',
@@ -30,7 +32,8 @@ REQUIRED_OBS = {'crystals_checked': 40, 'eval:C20:group-complete': 40, 'eval:C20
                 'eval:C20:tensor-projector': 100, 'eval:C20:fullvb-equivariant': 40, 'eval:C20:addbasis-group': 30,
                 'subgroups_Oh': 98, 'subgroups_D6h': 54, 'subgroups_D4': 10, 'subgroups_D6': 16,
                 'eval:C20:subgroup-vector-projector': 500, 'eval:C20:subgroup-tensor-projector': 500,
-                'mirror2d_offaxis': 5, 'sites_dim1': 5, 'sites_dim2': 5}
+                'mirror2d_offaxis': 5, 'sites_dim1': 5, 'sites_dim2': 5, 'decorated_crystals': 120,
+                'decorated_site_group_is_H': 100, 'regime:pg3d-S4': 3, 'regime:pg2d-C2-no-higher-axis': 10}
 CASE_TIMEOUT = 600
 TOL = 1e-9
 
